@@ -579,6 +579,30 @@ def r15_8(run):
                    "%s.from_dict sets attribute %r from the stored data, or only where the loaded object does not have it"
                    % (f.cls.name, name), run.where(f, e.node),
                    detail="value %s under %s" % (tshow(value)[:80], [(tshow(c)[:80], p) for c, p in e.cond]))
+        # the same for the stored dictionary itself: an entry of it is not replaced on its way to the constructor / to the base
+        # class -- neither by a later key of a merged display ({**d, "k": v} lets "k": v win) nor by an unguarded item store
+        if dpar is not None:
+            from ..arrnf import walk as _walk, C as _C
+            for e in r.events:
+                for t in ([e.term] if e.kind == "call" else [getattr(e, "value", None)]):
+                    if t is None:
+                        continue
+                    for x in _walk(t):
+                        if x[0] == "dict" and any(k_ == _C("**") and v_ == dpar for k_, v_ in x[1]):
+                            seen_spread = False
+                            for k_, v_ in x[1]:
+                                if k_ == _C("**") and v_ == dpar:
+                                    seen_spread = True
+                                elif seen_spread and k_[0] == "c" and not contains(v_, dpar):
+                                    run.ob("%s.from_dict|%s|stored-entry-not-overridden" % (f.cls.name, k_[1]), False,
+                                           "%s.from_dict hands the stored entries on unchanged (a key written after **%s replaces the stored value)"
+                                           % (f.cls.name, dpar[1]), run.where(f, e.node), detail=tshow(x)[:120])
+                if e.kind == "store" and e.base == dpar and len(e.index) == 1 and e.index[0][0] == "c" and not contains(e.value, dpar):
+                    facts = _facts_of(e.cond, r) if e.cond else {}
+                    absent = facts.get(tkey(("cmp", "in", e.index[0], dpar))) is False
+                    run.ob("%s.from_dict|%s|stored-entry-not-overridden" % (f.cls.name, e.index[0][1]), absent,
+                           "%s.from_dict replaces an entry of the stored dictionary only where it is absent" % f.cls.name, run.where(f, e.node),
+                           detail=tshow(e.value)[:80])
     run.ob("from_dict-methods-scanned", n >= 2, "from_dict methods of the package scanned: %d" % n, "src/pandapipes")
     run.floor(2)
 
